@@ -52,6 +52,9 @@ class Encoder:
 
     # ------------------------------------------------------------------ exp grouping
     def _group_exps(self, roots):
+        """find a basis of the exp arguments over Q: arg_i = sum_j k_ij * base_j  (guessed from exact
+        evaluation at random rational points, then proved as a side obligation), so that
+        exp(arg_i) = prod_j y_j ** k_ij with one positive variable per basis element."""
         exps = [n for n in X.walk(roots) if n.op == 'exp']
         if not exps:
             return
@@ -59,48 +62,53 @@ class Encoder:
         fv = X.free_vars([n.args[0] for n in exps])
         import random
         rnd = random.Random(12345)
-        env = {}
-        for name, v in fv.items():
-            env[name] = Fraction(rnd.randint(3, 997), rnd.randint(2, 113)) if v.sort == 'R' else rnd.randint(2, 9)
-        bases = []   # [arg_expr, value, members[(node, k)]]
+        m = len(exps) + 3
+        samples = []
+        for si in range(m):
+            env = {}
+            for name, v in fv.items():
+                env[name] = Fraction(rnd.randint(3, 997), rnd.randint(2, 113)) if v.sort == 'R' else rnd.randint(2, 9)
+            samples.append((env, {'__salt__': si}))
+        basis = []      # [(arg_expr, vec, node)]
+        reps = []       # per exp node: dict basis_index -> Fraction, or None (own variable)
         for n in exps:
             try:
-                val = X.ev(n.args[0], env, 'frac', self.absenv)
+                vec = [Fraction(X.ev(n.args[0], env, 'frac', ab)) for env, ab in samples]
             except Exception:
-                val = None
-            placed = False
-            if val is not None and val != 0:
-                for b in bases:
-                    if b[1] is not None and b[1] != 0:
-                        k = Fraction(val) / Fraction(b[1])
-                        if k.denominator <= 24 and abs(k.numerator) <= 48:
-                            b[2].append((n, k))
-                            placed = True
-                            break
-            if not placed:
-                bases.append([n.args[0], val, [(n, Fraction(1))]])
-        self._pending_groups = bases
+                reps.append(None)
+                continue
+            k = _solve([b[1] for b in basis], vec) if basis else None
+            if k is not None and all(c.denominator <= 24 and abs(c.numerator) <= 48 for c in k):
+                reps.append({j: c for j, c in enumerate(k) if c != 0})
+            else:
+                basis.append((n.args[0], vec, n))
+                reps.append({len(basis) - 1: Fraction(1)})
+        self._pending_groups = (exps, basis, reps)
 
     def _finish_groups(self):
-        bases = getattr(self, '_pending_groups', None)
-        if not bases:
+        pg = getattr(self, '_pending_groups', None)
+        if not pg:
             return
         self._pending_groups = None
-        for bi, (barg, bval, members) in enumerate(bases):
-            L = 1
-            for n, k in members:
-                L = lcm(L, k.denominator)
+        exps, basis, reps = pg
+        Ls = [1] * len(basis)
+        for r in reps:
+            if r:
+                for j, c in r.items():
+                    Ls[j] = lcm(Ls[j], c.denominator)
+        ys = []
+        for bi, (barg, _, _) in enumerate(basis):
+            L = Ls[bi]
             y = z3.Real('expb!%d' % bi)
+            ys.append(y)
             self.n_groups += 1
             self.cons.append(y > 0)
             bn, bd = self.real(barg)
             sgn = bn * bd if bd is not None else bn
             self.cons += [z3.Implies(sgn > 0, y > 1), z3.Implies(sgn < 0, y < 1), z3.Implies(sgn == 0, y == 1)]
-            # constant argument: box y**L = exp(barg)
             if barg.op == 'c':
                 lo, hi = _exp_box(barg.args[0] / L)
                 self.cons += [y >= _rv(lo), y <= _rv(hi)]
-            # barg = q * log(atom)  ->  y**(L*den) = atom**num
             lk = _single_log(barg)
             if lk is not None:
                 q, atom = lk
@@ -114,16 +122,25 @@ class Encoder:
                         self.cons.append(_mulo(lhs, a_p_d) == a_p_n)
                     else:           # y^r * an^p = ad^p
                         self.cons.append(lhs * a_p_n == (a_p_d if a_p_d is not None else z3.RealVal(1)))
-            for n, k in members:
-                m = int(k * L)
-                if not (len(members) == 1):
-                    an, ad = self.real(n.args[0])
-                    # arg == k*barg  <=>  an*bd*kden == knum*bn*ad
-                    lhs = _mulo(an, bd) * k.denominator
-                    rhs = _mulo(bn, ad) * k.numerator
-                    self.side.append((lhs == rhs, 'exp-arg proportionality k=%s' % k))
-                p = _pw(y, abs(m))
-                self.expmap[n.uid] = (p, None) if m >= 0 else (z3.RealVal(1), p)
+        for n, r in zip(exps, reps):
+            if r is None:
+                continue
+            if not (len(r) == 1 and list(r.values())[0] == 1 and basis[list(r)[0]][2] is n):
+                # prove arg == sum k_j * base_j
+                comb = X.const(0)
+                for j, c in r.items():
+                    comb = X.add(comb, X.mul(X.const(c), basis[j][0]))
+                self.side.append((self.boolean(X.eq(n.args[0], comb)),
+                                  'exp-argument linear dependence ' + ', '.join('%s*b%d' % (c, j) for j, c in r.items())))
+            num, den = z3.RealVal(1), None
+            for j, c in r.items():
+                mm = int(c * Ls[j])
+                pw = _pw(ys[j], abs(mm))
+                if mm >= 0:
+                    num = num * pw
+                else:
+                    den = pw if den is None else den * pw
+            self.expmap[n.uid] = (num, den)
 
     # ------------------------------------------------------------------ reals
     def real(self, e):
@@ -327,6 +344,36 @@ class Encoder:
         self.memo[key] = r
         self.keep.append(e)
         return r
+
+
+def _solve(cols, v):
+    """exact rational solve  sum_j k_j cols[j] = v ; None when inconsistent"""
+    n = len(cols)
+    m = len(v)
+    M = [[cols[j][i] for j in range(n)] + [v[i]] for i in range(m)]
+    piv = []
+    r = 0
+    for c in range(n):
+        pr = None
+        for i in range(r, m):
+            if M[i][c] != 0:
+                pr = i
+                break
+        if pr is None:
+            return None         # dependent basis (should not happen)
+        M[r], M[pr] = M[pr], M[r]
+        pv = M[r][c]
+        M[r] = [x / pv for x in M[r]]
+        for i in range(m):
+            if i != r and M[i][c] != 0:
+                f = M[i][c]
+                M[i] = [a - f * b for a, b in zip(M[i], M[r])]
+        piv.append(c)
+        r += 1
+    for i in range(r, m):
+        if M[i][n] != 0:
+            return None
+    return [M[i][n] for i in range(n)]
 
 
 def _mulo(a, b):
